@@ -382,6 +382,55 @@ pub fn run_lint() {
     }
 }
 
+pub fn run_containers() {
+    use penne::alpha::scoper::verif_container_hooks as h;
+    fn parse(c: &str) -> h::ContainerState {
+        let f: Vec<&str> = c.split(':').collect();
+        let mask = u32::from_str_radix(f[1], 16).unwrap();
+        h::ContainerState {
+            id: f[0].parse().unwrap(),
+            contained_ids: (0..32).filter(|i| mask & (1 << i) != 0).collect(),
+            is_structure: f[2] == "1",
+            depth: match f[3] { "n" => None, "p" => Some(Err(())), d => Some(Ok(d.parse().unwrap())) },
+        }
+    }
+    fn show(cs: &[h::ContainerState]) -> String {
+        let parts: Vec<String> = cs.iter().map(|c| {
+            let mask = c.contained_ids.iter().fold(0u32, |m, i| m | (1 << i));
+            let depth = match &c.depth { None => "n".to_string(), Some(Err(())) => "p".to_string(), Some(Ok(d)) => format!("{}", d) };
+            format!("{}:{:x}:{}:{}", c.id, mask, if c.is_structure { 1 } else { 0 }, depth)
+        }).collect();
+        parts.join(" ")
+    }
+    let stdin = std::io::stdin();
+    for line in stdin.lock().lines() {
+        let line = line.unwrap();
+        let w: Vec<String> = line.split(' ').filter(|x| !x.is_empty()).map(|x| x.to_string()).collect();
+        let r = std::panic::catch_unwind(move || match w[0].as_str() {
+            "step" => {
+                let cs: Vec<h::ContainerState> = w[4..].iter().map(|c| parse(c)).collect();
+                let ty = P { s: w[3].as_bytes(), i: 0 }.cty();
+                let (res, out) = h::container_step(&cs, w[1].parse().unwrap(), w[2] == "1", ty.clone());
+                let res = match res {
+                    Ok(t) => format!("ok{}", if t == ty { 1 } else { 0 }),
+                    Err(Some(e)) => format!("err{}", e.code()),
+                    Err(None) => "poisoned".to_string(),
+                };
+                format!("{} | {}", res, show(&out))
+            }
+            "depths" => {
+                let cs: Vec<h::ContainerState> = w[1..].iter().map(|c| parse(c)).collect();
+                show(&h::container_depths(&cs))
+            }
+            o => panic!("unknown request {o}"),
+        });
+        match r {
+            Ok(s) => println!("{}", s),
+            Err(_) => println!("PANIC"),
+        }
+    }
+}
+
 trait Show { fn show(&self) -> String; }
 impl Show for bool { fn show(&self) -> String { format!("{}", self) } }
 impl Show for usize { fn show(&self) -> String { format!("{}", self) } }
